@@ -344,7 +344,9 @@ Step ==
                                                                 /\ ~rq.duringRW /\ ~Rq[x].duringRW
                         THEN <<V("C11", "overlapping_request_not_refused", sid, [rid |-> e.rid, status |-> e.status])>> ELSE <<>>)
                     \o (IF rq.toClosed /\ ~(e.status = 400 /\ e.code = 1) THEN <<V("C04", "closed_session_still_reachable", sid, [rid |-> e.rid, status |-> e.status])>> ELSE <<>>)
-                    \o (IF live /\ rq.kind = "post" /\ e.okAck /\ ~s0.closed /\ rq.msgs # <<>> /\ ~(SeqSet(rq.msgs) \subseteq SeqSet(s0.del))
+                    \* (a session that closed while the payload was being processed - its state is already closed, the close event
+                    \*  still to come - drops the remaining packets: the acknowledgement then says nothing about them)
+                    \o (IF live /\ rq.kind = "post" /\ e.okAck /\ ~s0.closed /\ e.rsNow = "open" /\ rq.msgs # <<>> /\ ~(SeqSet(rq.msgs) \subseteq SeqSet(s0.del))
                         THEN <<V("C11", "ok_before_all_packets_processed", sid, [rid |-> e.rid, missing |-> SeqSet(rq.msgs) \ SeqSet(s0.del), v3lossy |-> s0.v3lossy])>> ELSE <<>>)
                     \o (IF live /\ e.status = 200 /\ rq.kind = "poll" /\ (~e.decodeOk \/ ~e.clenOk)
                         THEN <<V("C16", "poll_body_not_decodable", sid, [rid |-> e.rid, decodeOk |-> e.decodeOk, clenOk |-> e.clenOk])>> ELSE <<>>)
